@@ -682,6 +682,7 @@ impl Parser {
         self.state = EngineState::Default;
         buf.reset_terminal();
         caret.reset();
+        buf.terminal_state.limit_caret_pos(buf, caret);
     }
 
     /// Sequence: `CSI Ps1 ; Ps2 * r`</p>
